@@ -1,6 +1,9 @@
 // Defect (C09): KillSwapUsage::init keeps SwapTotal / MemTotal in `auto x = 0` (an int).  With SwapTotal >= 2 GiB
 // the byte count is truncated, so a percentage threshold ("50%") and the protection bias (swapRatio_) are
 // computed from a wrong total.  Here SwapTotal = 6 GiB, MemTotal = 12 GiB: 50% must be 3 GiB, ratio 0.5.
+#ifndef DEMO_TMP
+#define DEMO_TMP "/tmp/oomd_demo"   /* scratch directory; replay/replay.py passes -DDEMO_TMP=... */
+#endif
 #include <cstdio>
 #include <fstream>
 #include <iostream>
@@ -8,7 +11,7 @@
 #include "oomd/plugins/KillSwapUsage.h"
 using namespace Oomd;
 int main() {
-  const char* path = "/tmp/w/d9/meminfo";
+  const char* path = DEMO_TMP "/meminfo";
   { std::ofstream f(path); f << "MemTotal:       12582912 kB\nMemFree:         1000000 kB\nSwapTotal:       6291456 kB\nSwapFree:        6291456 kB\n"; }
   KillSwapUsage<> plugin;
   Engine::PluginArgs args;
